@@ -57,6 +57,10 @@ func mutantOverlay(repo, path string) (map[string][]byte, error) {
 			var err error
 			src, err = os.ReadFile(f)
 			if err != nil {
+				if e.Find == "" && e.Replace != "" {
+					out[f] = []byte(e.Replace) // a file created by the patch
+					continue
+				}
 				return nil, fmt.Errorf("anchor file missing: %s", e.File)
 			}
 		}
